@@ -364,7 +364,7 @@ theorem runCmd_quiet (cfg : Cfg) (s : S α) (c : Cmd) (src pt : Int) (hA : c.op 
   split
   · exact Quiet.foldl _ (fun s t => heal_quiet s src t) _ _
   split
-  · exact hpPrim_quiet _ _ _
+  · exact Quiet.foldl _ (fun s t => hpPrim_quiet s t src) _ _
   split
   · exact (Quiet.refl s).enqueue _ _ _ _
   split
